@@ -182,9 +182,14 @@ example :
 from it, translated from the source on every run (an arm reached through `else if` carries the negation of the arms before it). -/
 
 open Zeno.Model.Scope in
-/-- the translated chain takes the decision the model's `postAct` takes, for **every** depth, hop limit and flag combination: an item more
+/-- every condition of the chain and of the two extraction guards was understood by the translator (an opaque sub-condition would make the
+equalities below say nothing about the code), and then: the translated chain takes the decision the model's `postAct` takes, for **every** depth, hop limit and flag combination: an item more
 than two levels below the page (redirections not counted), an HTML document found as a requisite, or anything when assets capture is off and
 no hop is allowed - unless domains crawl is active -/
+theorem c06_depth_tests_known :
+    (S.postEarlyGuards.all PCond.known && S.wantAssetsCond.known && S.wantOutlinksCond.known && !S.postEarlyGuards.isEmpty) = true := by decide
+
+open Zeno.Model.Scope in
 theorem c06_depth_tests_translated (e : PEnv) : completesEarly S.postEarlyGuards e = modelCompletesEarly S e := by
   obtain ⟨dc, depth, html, da, mh⟩ := e
   have hcut : S.depthCut = 2 := by decide
